@@ -864,8 +864,27 @@ impl Xot {
                 "Cannot replace document node".to_string(),
             ));
         }
-        // there should always be a parent as we're not document node
-        let parent = self.parent(replaced_node).unwrap();
+        // without a parent there is no place to put the replacing node
+        let parent = self.parent(replaced_node).ok_or_else(|| {
+            Error::InvalidOperation("Cannot replace a node without a parent".to_string())
+        })?;
+        if !self.value(replaced_node).is_normal() {
+            return Err(Error::InvalidOperation(
+                "Cannot replace attribute or namespace node".to_string(),
+            ));
+        }
+        // validate everything before the replaced node is destroyed: the
+        // replacing node has to be acceptable under the parent, and it cannot
+        // be (part of) what is about to be removed
+        self.add_structure_check(Some(parent), replacing_node)?;
+        if self
+            .ancestors(replacing_node)
+            .any(|ancestor| ancestor == replaced_node)
+        {
+            return Err(Error::InvalidOperation(
+                "Cannot replace a node with itself or one of its descendants".to_string(),
+            ));
+        }
         // record previous sibling
         let previous_node = self.previous_sibling(replaced_node);
         // remove the replaced node, use low-level remove_tree to avoid
